@@ -62,30 +62,39 @@ def nondecreasing : List Int → Bool
   | a :: b :: r => decide (a ≤ b) && nondecreasing (b :: r)
   | _ => true
 
-/-- The statement of C11 for one cycle, evaluated on that cycle's outputs. -/
-def checkCycle (ac : Bool) (cy : Cycle) (outs : List Out) : Option String :=
+/-- the message of the first violated clause -/
+def firstViolation : List (Bool × String) → Option String
+  | [] => none
+  | (c, m) :: rest => if c then some m else firstViolation rest
+
+/-- The clauses of the statement of C11 for one cycle, on that cycle's outputs `outs` (pushes,
+    Finalise, pulls, optional Clear), each with "violated?".  `Properties/C11_checker.lean` proves
+    that no clause is violated iff `outs` is `specCycle ac ys cy` for some sorted enumeration `ys`
+    of the pushed values (`checkCycle_sound`, `checkCycle_complete`). -/
+def cycleClauses (ac : Bool) (cy : Cycle) (outs : List Out) : List (Bool × String) :=
   let n := cy.pushes.length
   let pushOuts := outs.take n
   let pullOuts := (outs.drop (n + 1)).take cy.pulls
   let vals := pullOuts.filterMap (·.val)
-  if pushOuts ≠ (List.range n).map (fun i => (⟨.ok, none, i + 1, i + 1⟩ : Out)) then
-    some "push-result-or-len-pos"
-  else if outs[n]? ≠ some ⟨.ok, none, n, 0⟩ then some "finalise-result-or-len-pos"
-  else if !nondecreasing (vals.map (·.key)) then some "pulls-not-nondecreasing"
-  else if (pullOuts.take n).any (fun o => o.res == .eof) then some "eof-before-all-values-pulled"
-  else if (pullOuts.take n).any (fun o => o.res != .ok || o.val.isNone) then some "pull-fails-before-drained"
-  else if n ≤ cy.pulls && !(vals.isPerm cy.pushes) then some "drained-multiset-differs"
-  else if (vals.foldl List.erase cy.pushes).length + vals.length ≠ n then some "pulled-value-never-pushed"
-  else if vals.map (·.key) ≠ (sortKeys (cy.pushes.map (·.key))).take vals.length then
-    some "partial-drain-not-the-smallest"
-  else if (pullOuts.drop n).any (fun o => o.res != .eof || o.val.isSome) then some "no-eof-after-drain"
-  else if (List.range cy.pulls).any (fun j =>
+  [ (decide (pushOuts ≠ (List.range n).map (fun i => (⟨.ok, none, i + 1, i + 1⟩ : Out))), "push-result-or-len-pos"),
+    (decide (outs[n]? ≠ some ⟨.ok, none, n, 0⟩), "finalise-result-or-len-pos"),
+    (!nondecreasing (vals.map (·.key)), "pulls-not-nondecreasing"),
+    ((pullOuts.take n).any (fun o => o.res == .eof), "eof-before-all-values-pulled"),
+    ((pullOuts.take n).any (fun o => o.res != .ok || o.val.isNone), "pull-fails-before-drained"),
+    (decide (n ≤ cy.pulls) && !(vals.isPerm cy.pushes), "drained-multiset-differs"),
+    (decide ((vals.foldl List.erase cy.pushes).length + vals.length ≠ n), "pulled-value-never-pushed"),
+    (decide (vals.map (·.key) ≠ (sortKeys (cy.pushes.map (·.key))).take vals.length), "partial-drain-not-the-smallest"),
+    ((pullOuts.drop n).any (fun o => o.res != .eof || o.val.isSome), "no-eof-after-drain"),
+    ((List.range cy.pulls).any (fun j =>
       match pullOuts[j]? with
       | some o => if j < n then o.len != n || o.pos != j + 1
                   else o.len != (if ac then 0 else n) || o.pos != (if ac then 0 else n)
-      | none => true) then some "len-pos-during-pulls"
-  else if cy.clear && outs[n + 1 + cy.pulls]? ≠ some ⟨.ok, none, 0, 0⟩ then some "clear-result-or-len-pos"
-  else none
+      | none => true), "len-pos-during-pulls"),
+    (cy.clear && decide (outs[n + 1 + cy.pulls]? ≠ some ⟨.ok, none, 0, 0⟩), "clear-result-or-len-pos") ]
+
+/-- The statement of C11 for one cycle, evaluated on that cycle's outputs. -/
+def checkCycle (ac : Bool) (cy : Cycle) (outs : List Out) : Option String :=
+  firstViolation (cycleClauses ac cy outs)
 
 def cycleOpCount (cy : Cycle) : Nat := cy.pushes.length + 1 + cy.pulls + (if cy.clear then 1 else 0)
 
